@@ -87,12 +87,15 @@ func init() {
 	body := func(c *explore.Ctx) {
 		li := c.Choose(len(layouts))
 		if li == 0 {
-			switch c.Choose(3) {
+			switch c.Choose(4) {
 			case 1:
 				c10TwoStructs(c)
 				return
 			case 2:
 				c10Unexported(c)
+				return
+			case 3:
+				c10NilPointer(c)
 				return
 			}
 		}
@@ -243,7 +246,7 @@ func init() {
 		ShardDepth: 5,
 		Body:       body,
 		Rule: "positional layouts: every sequence of 0..3 scalar fields over {string, int, Unmarshaler, map[string]int} (an int field at an odd position carries base:\"8\") x trailing slice {none, []string, []int, []*string (parser-owned layouts with a pass-through option)} x owner {parser, command, both (the same layout on each)} x {None, PassDoubleDash, PassAfterNonOption, both} x {tags, API} " +
-			"x every sequence of <= 4 units (<= 3 for layouts of two or three fields, PassAfterNonOption and both-owner declarations; thorough: one more everywhere, 6 for parser-owned layouts built through the API with PassDoubleDash) over {w, 7, -3, 010 (ten, or eight where the field says base 8), --str= (the empty value, attached), k:1, a quoted 7 (with its quotes: a positional is taken verbatim), -v, -s val, -2 (a declared flag with a digit as short name), --, -x, cmd}; oracle = CLM positional queue (field values after conversion, overflow into remaining arguments); after every accepted vector the public Args() list must still be the declared one and, for layouts without a slice, a second parse of the same vector on the same parser must bind the same fields",
+			"x every sequence of <= 4 units (<= 3 for layouts of two or three fields, PassAfterNonOption and both-owner declarations; thorough: one more everywhere, 6 for parser-owned layouts built through the API with PassDoubleDash) over {w, 7, -3, 010 (ten, or eight where the field says base 8), --str= (the empty value, attached), k:1, a quoted 7 (with its quotes: a positional is taken verbatim), -v, -s val, -2 (a declared flag with a digit as short name), --, -x, cmd}; oracle = CLM positional queue (field values after conversion, overflow into remaining arguments); beside that, three hand-built declarations (two positional-args structs on one parser; an unexported field between exported ones; the positional-args struct and a command behind nil pointers); after every accepted vector the public Args() list must still be the declared one and, for layouts without a slice, a second parse of the same vector on the same parser must bind the same fields",
 		Assumptions:  []string{"conversion of the alphabet's tokens is taken from the conversion model (checked against the library by C11)"},
 		RequiredHits: []string{"compared", "three-or-more-bound", "after-terminator", "conversion-fault", "second-parse"},
 		Bound:        [2]string{"all unit sequences of length <= 4", "all unit sequences of length <= 5 (<= 6 on one declaration family)"},
@@ -384,4 +387,62 @@ func min2(a, b int) int {
 		return a
 	}
 	return b
+}
+
+// c10NilPointer: the positional-args struct (and a command with positionals of its own) hang off nil pointers of the
+// program's struct. The library allocates them; what it binds has to be reachable through the program's struct afterwards.
+func c10NilPointer(c *explore.Ctx) {
+	type posArgs struct {
+		Name string
+		Rest []string
+	}
+	type subCmd struct {
+		Args struct {
+			File string
+		} `positional-args:"yes"`
+	}
+	var opts struct {
+		Verbose []bool   `short:"v"`
+		Args    *posArgs `positional-args:"yes"`
+	}
+	var optsCmd struct {
+		Verbose []bool  `short:"v"`
+		Sub     *subCmd `command:"sub"`
+	}
+	which := c.Choose(2)
+	argv := [][]string{{"a", "-v", "b", "c"}, {"sub", "f"}}[which]
+	c.Describe(func() interface{} {
+		return map[string]interface{}{"declaration": "Args *struct{Name string; Rest []string} positional-args; Sub *struct{Args struct{File string}} command:sub (both pointers nil)", "argv": argv}
+	})
+	p := flags.NewParser(&opts, flags.None)
+	if which == 1 {
+		p = flags.NewParser(&optsCmd, flags.None)
+	}
+	var rest []string
+	var err error
+	func() {
+		defer func() {
+			if r := recover(); r != nil {
+				c.Fail("panic|"+explore.PanicSite(), fmt.Sprint(r))
+			}
+		}()
+		rest, err = p.ParseArgs(argv)
+	}()
+	if c.Failed() {
+		return
+	}
+	c.Hit("nil-pointer-structs")
+	if err != nil {
+		c.Fail("valid-vector-rejected|"+errType(err), fmt.Sprint(err))
+		return
+	}
+	if which == 0 {
+		if opts.Args == nil || opts.Args.Name != "a" || !sameStrings(opts.Args.Rest, []string{"b", "c"}) || len(rest) != 0 {
+			c.Fail("positional|tokens-bound-into-a-struct-the-program-cannot-see", map[string]interface{}{"Args": fmt.Sprintf("%+v", opts.Args), "rest": rest})
+		}
+		return
+	}
+	if optsCmd.Sub == nil || optsCmd.Sub.Args.File != "f" || len(rest) != 0 {
+		c.Fail("positional|tokens-bound-into-a-command-struct-the-program-cannot-see", map[string]interface{}{"Sub": fmt.Sprintf("%+v", optsCmd.Sub), "rest": rest})
+	}
 }
